@@ -286,3 +286,46 @@ Proof.
   rewrite (nonskip_skipper c Hns). unfold after_skip. cbn [to_c10 i_ref i_rerr]. rewrite Hrc.
   destruct (ci_rerr c); split; try discriminate; reflexivity.
 Qed.
+
+(* ---------- C10_registry_skip ---------- *)
+
+(* the reference class of the composed input is the string comparison of C10_Model.classify *)
+Definition pref_of (r : cref) : pref :=
+  match r with CInvalid => PInvalid | CNoRef => PNone | CTag => PTag | CDigest dg => PDigest dg end.
+
+Lemma refclass_of_classify c :
+  refclass_of c = classify (pref_of (ci_ref c)) (M1.t_dg (ci_resolved c)).
+Proof. unfold refclass_of. destruct (ci_ref c); reflexivity. Qed.
+
+(* the applicable level is the skip level: one SkipVerify call, the skip outcome, the zero
+   descriptor; no call on the repository — whatever the reference, the resolved descriptor,
+   the listing *)
+Theorem registry_skip : forall c l,
+  M1.get_level (ci_level c) (ci_override c) = Some l -> M1.is_skip l = true ->
+  (0 < ci_max c)%Z ->
+  verify_registry c = mk_obs ROk DZero OSkip [ES] true /\
+  repo_calls (o_log (verify_registry c)) = [].
+Proof.
+  intros c l Hl Hs Hm.
+  assert (E : skipper_of c = SkipYes) by (unfold skipper_of; rewrite Hl, Hs; reflexivity).
+  split.
+  - unfold verify_registry. apply skip_nothing; cbn [to_c10 i_nilv i_nilr i_max i_skip]; auto.
+  - unfold verify_registry. apply skip_no_repo_calls. exact E.
+Qed.
+
+(* conversely the skip outcome is returned only under the skip level *)
+Theorem registry_skip_only : forall c,
+  o_outs (verify_registry c) = OSkip ->
+  exists l, M1.get_level (ci_level c) (ci_override c) = Some l /\ M1.is_skip l = true.
+Proof.
+  intros c Ho. unfold verify_registry in Ho.
+  destruct (model_not_reaching (to_c10 c)) as [Hr | [(_ & _ & _ & _ & Hs) | (r & log & E & _)]].
+  - exfalso. rewrite (model_head _ Hr) in Ho. revert Ho. unfold listing_obs.
+    destruct (find_stop _ 0) as [[k x]|];
+      repeat match goal with |- context [if ?b then _ else _] => destruct b end;
+      try destruct x; cbn; discriminate.
+  - cbn [to_c10 i_skip] in Hs. unfold skipper_of in Hs.
+    destruct (M1.get_level (ci_level c) (ci_override c)) as [l|]; [|discriminate].
+    exists l. split; [reflexivity|]. destruct (M1.is_skip l); [reflexivity | discriminate].
+  - rewrite E in Ho. cbn in Ho. discriminate.
+Qed.
